@@ -35,7 +35,15 @@ func tableGetN(L *LState) int {
 }
 
 func tableMaxN(L *LState) int {
-	L.Push(LNumber(L.CheckTable(1).MaxN()))
+	tbl := L.CheckTable(1)
+	max := LNumber(tbl.MaxN())
+	// positive numeric keys also live in the hash part (non-integral or >= MaxArrayIndex)
+	tbl.ForEach(func(key, _ LValue) {
+		if n, ok := key.(LNumber); ok && n > max {
+			max = n
+		}
+	})
+	L.Push(max)
 	return 1
 }
 
